@@ -8,6 +8,15 @@ CONFIG = dict(
              'single head, dag1-addm = every merge adds lines, multi = several heads, shape-* = diamond, criss-cross, nested and chained '
              'merges, octopus, all commits in one tick, two roots), lin = linear histories with arbitrary edits (repeated lines, replacements, '
              'deletions, renames, binary flips, missing final newline), notext = only empty/binary files (F11). '
+             'Strengthening families: opt / opt-octo = conflict-free histories of 8..57 commits with 1..4 root commits merged together, 1 / 2 / 50 authors '
+             '(the author of a merge commit drawn like any other), octopus fans of 3..6 parents under hibernation distance 0..4, G and S from {1, 7, 30, 365}, '
+             'ticks spanning 20..9 000 days (last tick forced to 16382 or to a value next to 7, 30, 365, 730, 4096, 8192 in a sixth), commit times inside a day '
+             'equal or non-monotone; scale-dag / -octo / -roots / -wide / -linear = the same generator on 1 000 commits (thorough 10 000) with 80..180 merges '
+             '(thorough about 1 000), up to 16 live branches, a 10^4-line file (thorough 10^5) edited at head and tail, matrices of hundreds to 1 800 rows, '
+             'hibernation distance 0 / 1 / 2 / 3..4; linscale / linopt = linear arbitrary-edit histories in delta form, 1 000 steps (thorough 10 000) resp. 5..44 steps: '
+             'files that become binary and text again, renames, deletions, a 10^4-line file of repeated lines, commit times going backwards (tick = running maximum). '
+             'Large cases (field scale) are judged by the ground truth computed natively by the driver (difference arrays; the same definitions as Lifetimes.v / Linear.v), '
+             'which every small case of the run checks against the extracted oracle; the analysis model is stepped on the opt family but not on the 10^3-commit cases. '
              'Non-trivial = at least 3 commits and (conflict-free kinds) at least one killed line; distinct = distinct '
              '(history, G, S, flags, hibernation setting).',
         exhaustive_note='',
@@ -32,6 +41,9 @@ CONFIG = dict(
             'sparse global/file/people histories, interaction matrix, dense matrices and final files of the root branch must be equal',
             'the declarative history model and ground truth coq/theories/Burndown/Lifetimes.v and Linear.v (extracted: the oracle)',
             'go-git in-memory repositories built by harness/synth (blobs "L<id>\\n" per line identity)',
+            'large cases (10^3..10^4 commits, matrices of hundreds of rows, 10^3..10^4-step linear histories): conflict_free, single_head, last_event, truth_project/file/dev, lines_at_head, ownership and the '
+            'linear row-sum law are evaluated by native OCaml code on arrays in the driver (the extracted oracle is cubic); on every small case both are computed and a difference is reported as a driver failure',
+            'linear scale histories: the tick of a commit is computed by the harness as the running maximum of the day offset from the first commit (the formula of TicksSinceStart; property C19)',
         ],
         level_text='Proved in Coq (all closed under the global context): C01_dense (groupSparseHistory: every cell of the dense matrix = sum of '
                    'the sparse entries of samples <= s and band b, for every sparse history and sampling <, =, > granularity; the pre-fix row '
